@@ -425,6 +425,42 @@ def bare_extensions(tb):
     return cases, hist
 
 
+NAME_PATTERNS = [["a", "a", "b"], ["a", "b", "a"], ["a", "a"], ["a", "b", "b", "c"], ["a", "a", "a", "b", "c"],
+                 ["a", "b", "a", "c", "b", "d"]]
+
+
+def repeated_names(tb):
+    """same-keyword siblings that also carry the SAME argument (two typedefs / leaves / groupings of one name):
+    the builder knows nothing about names, each statement still gets its own node, in source order"""
+    cases = []
+    hist = dict(repeated_names=0)
+    paths = tb.paths()
+    for (ty, kw), chain in sorted(paths.items()):
+        req = tb.required_keys(ty, kw)
+        for f in tb.children(ty):
+            if f["kind"] != "FMulti":
+                continue
+            c = f["key"]
+            pats = NAME_PATTERNS if c in ("typedef", "grouping", "identity", "leaf", "extension") else NAME_PATTERNS[:2]
+            for pat in pats:
+                subs = [tb.minimal(c, nm) for nm in pat]
+                base = [tb.minimal(k, "r") for k in req if k != c]
+                cases.append(case_line([tb.wrap(chain, (kw, "n", base + subs))]))
+                hist["repeated_names"] += 1
+            if c == "typedef":
+                # other statements between the equally named ones, and a second scope below with the same names
+                other = [x["key"] for x in tb.children(ty) if x["kind"] == "FMulti" and x["key"] not in ("typedef",)]
+                mix = [tb.minimal("typedef", "a")]
+                if other:
+                    mix.append(tb.minimal(other[0], "a"))
+                mix += [tb.minimal("typedef", "a"), ("x:e", "a", []), tb.minimal("typedef", "b"),
+                        tb.minimal("typedef", "b"), tb.minimal("typedef", "c")]
+                base = [tb.minimal(k, "r") for k in req if k != c]
+                cases.append(case_line([tb.wrap(chain, (kw, "n", base + mix))]))
+                hist["repeated_names"] += 1
+    return cases, hist
+
+
 def random_tree(tb, rnd, kw, depth, budget, q):
     """q = noise: probability of a junk child / an omitted required child / a repeated single child"""
     ty = tb.struct_for(kw)
@@ -524,6 +560,9 @@ def gen(tier, seed):
     w, h2 = bare_extensions(tb)
     cases += w
     hist.update(h2)
+    w, h2 = repeated_names(tb)
+    cases += w
+    hist.update(h2)
     nr = 3000 if tier == "quick" else 60000
     cases += randoms(tb, rnd, nr)
     hist["random_trees"] = nr
@@ -579,7 +618,8 @@ def run(res, tier, seed, proof):
              "repeated keyword for every (struct, repeated field) of the table, interleaved mixes.  Bare extension "
              "names: for every struct, a module defining `extension NAME` (before / after the use, in another "
              "module, NAME also a YANG keyword of another context) and NAME used unprefixed -> unknown field, "
-             "prefixed -> extension list.  File leg: "
+             "prefixed -> extension list.  Repeated names: equally named siblings of every repeated keyword "
+             "(typedef a; typedef a; typedef b; ... in every typedef-holding scope) keep one node each.  File leg: "
              "faulty and good texts written to a file and read with Modules.Read twice, then by module name "
              "through the search path, then once more after the file was corrected (or broken) on disk -- a "
              "rejected source must be rejected every time at the same position, a Read without error must show "
